@@ -117,6 +117,16 @@ func (w *c09World) enabledOps() []string {
 	if tip > 3 && tip%1000 > 3 {
 		ops = append(ops, "revert:"+strconv.Itoa(tip-3))
 	}
+	// a revert during which the first / second storage operation fails: must leave everything as it was
+	for _, b := range w.bounds {
+		if b <= tip-1 && b >= tip-1002 {
+			ops = append(ops, "frevert:"+strconv.Itoa(b)+":1", "frevert:"+strconv.Itoa(b)+":2")
+			break
+		}
+	}
+	if tip > 3 && tip%1000 > 3 {
+		ops = append(ops, "frevert:"+strconv.Itoa(tip-3)+":1")
+	}
 	// an equal-length reorganisation (the most common shape): revert by n, append n other headers
 	for _, n := range []int{1, 3} {
 		if tip > n {
@@ -142,6 +152,37 @@ func (w *c09World) apply(op string) {
 		arg, _ = strconv.Atoi(parts[1])
 	}
 	switch parts[0] {
+	case "frevert":
+		fa := strings.SplitN(parts[1], ":", 2)
+		target, _ := strconv.Atoi(fa[0])
+		k, _ := strconv.Atoi(fa[1])
+		w.store.FailAt, w.store.FailSticky = w.store.Ops+k, false
+		nFailed := len(w.store.Failed)
+		var err error
+		pv := guard(func() { err = w.repo.Revert(ctx, target) })
+		w.store.FailAt = 0
+		if pv != nil {
+			w.fail("revert-panics", "storage fault", fmt.Sprintf("Revert(%d) from %d with a failing storage operation panicked: %v", target, w.tip(), pv))
+			return
+		}
+		if len(w.store.Failed) == nFailed || err == nil {
+			// the revert issued fewer storage operations than k, or survived the fault: it is a plain revert then
+			if err != nil {
+				w.fail("revert-valid-height-fails", "no fault", fmt.Sprintf("Revert(%d) from tip %d returned %v", target, w.tip(), err))
+				return
+			}
+			for h := w.tip(); h > target; h-- {
+				w.gone = append(w.gone, *w.ref[h].BlockHash())
+			}
+			w.ref = w.ref[:target+1]
+			w.salt++
+			w.saved = "current"
+			w.probe("after revert (a storage operation failed but the revert succeeded)", "")
+			return
+		}
+		// a failed revert leaves the store unchanged: all queries still agree with the unreverted reference
+		w.probe("after a revert that failed on a storage fault", fmt.Sprintf("Revert(%d) from tip %d returned %v; ", target, w.tip(), err))
+		return
 	case "fork":
 		w.ops = w.ops[:len(w.ops)-1]
 		w.apply("revert:" + strconv.Itoa(w.tip()-arg))
@@ -568,7 +609,7 @@ func runC09() int {
 	rep.Coverage["evaluations"] = seqs
 	rep.Coverage["distinct_nontrivial"] = len(rep.Outcomes)
 	rep.Coverage["queries_compared"] = queries
-	rep.Coverage["rule"] = fmt.Sprintf("every sequence of <= depth macro operations {add 1, grow to boundary height, revert to boundary height, equal-length fork of 1 / 3 headers, save, save+reload} over boundary heights (%s), both delete-missing behaviours; each executed on the real BlockRepository over RecStore and compared after every operation with a reference slice (every by-height/by-hash/tip query at all file boundaries +-1, negative and beyond-tip heights; node-level BlockHash/GetHeaders after each save). states = operation sequences executed (no merging); distinct = distinct (tip, newest-file-saved state, number of reverted headers) outcomes", fmt.Sprint(cfgs))
+	rep.Coverage["rule"] = fmt.Sprintf("every sequence of <= depth macro operations {add 1, grow to boundary height, revert to boundary height, revert with the first / second storage operation failing, equal-length fork of 1 / 3 headers, save, save+reload} over boundary heights (%s), both delete-missing behaviours; each executed on the real BlockRepository over RecStore and compared after every operation with a reference slice (every by-height/by-hash/tip query at all file boundaries +-1, negative and beyond-tip heights; node-level BlockHash/GetHeaders after each save). states = operation sequences executed (no merging); distinct = distinct (tip, newest-file-saved state, number of reverted headers) outcomes", fmt.Sprint(cfgs))
 	rep.Coverage["depth_completed"] = cfgs[len(cfgs)-1].depth
 	rep.Assumptions = []string{"storage Write/Remove are atomic per key", "headers are synthetic (no proof of work); branch salt makes re-grown headers differ from reverted ones"}
 	repoConc(rep, "C09")
